@@ -184,7 +184,7 @@ class StrSchema(Schema[StrProps]):
 
         try:
             re.compile(pattern)
-        except re.error as e:
+        except (re.error, OverflowError) as e:
             message = f"Invalid pattern ({e})"
             raise DeclarationError(message) from None
 
